@@ -390,6 +390,14 @@ def gen_net(rng, idx, profile):
             new = b.unary("LEAKY_RELU", cur)
             if rng.random() < 0.4:
                 _same_quant(b, new, cur)
+            # a NEGATIVE alpha on every third-or-so operator (own generator, a function of (index, step): the random stream of the
+            # networks is what it was). int8 / uint8: table lookup, must stay bit-exact. int16: lowered to MIN, int32 MUL by the
+            # negative quantised multiplier, RELU, ADD (C06 finding int16-lrelu-negative-alpha-negative-ofm-scale) - or, on a tree
+            # with repair C16-20 (constraint_alpha_valid), left on the CPU.
+            r2 = random.Random((idx * 7919 + step) * 31 + 5)
+            if r2.random() < 0.35:
+                b.net.ops[-1].opts = ("LeakyReluOptions", dict(Alpha=float(r2.choice([-0.5, -2.0, -0.125, -1.0, -0.999, -8.0]))))
+                b.net.desc.append(f"alpha={b.net.ops[-1].opts[1]['Alpha']}")
         elif kind == "quantize":
             new = b.quantize(cur)
         elif kind == "sqdiff" and xt.dtype != "uint8":
@@ -672,6 +680,11 @@ def corpus_net(rng, name):
         b.net.ops.append(netgen.Op("STRIDED_SLICE", [b.unary("RELU", x), bt, et, st], [y], ("StridedSliceOptions", dict(
             BeginMask=0, EndMask=0, EllipsisMask=0, NewAxisMask=0, ShrinkAxisMask=0))))
         return b.finish([b.unary("RELU", y)])
+    if name == "known_sigmoid_relu6":
+        # int16 LOGISTIC -> RELU6: both are packed into one pass (one average pool), the command generator keeps the last activation
+        b = make_builder(rng, name, "int16")
+        x = b.input([1, 4, 4, 8], scale=0.001, zp=0)
+        return b.finish([b.unary("RELU6", b.unary("LOGISTIC", x))])
     if name == "known_protected_reshape_inplace":
         b = make_builder(rng, name, "int8")
         x = b.input([1, 8, 12, 17], scale=0.05, zp=3)
@@ -762,7 +775,8 @@ def corpus_net(rng, name):
         z = b.fm([1, 1, 1, 12], "int8", scale=0.0199, zp=-20)
         b.net.ops.append(netgen.Op("MEAN", [x, ax], [z], ("ReducerOptions", dict(KeepDims=True))))
         return b.finish([z])
-    b = make_builder(rng, name, "int16" if name in ("known_fc_int16", "known_lrelu16_relu6", "known_lrelu16_reshape", "known_lrelu16_rounding")
+    b = make_builder(rng, name, "int16" if name in ("known_fc_int16", "known_lrelu16_relu6", "known_lrelu16_reshape", "known_lrelu16_rounding",
+                                                   "known_lrelu16_negative_alpha")
                      else ("uint8" if name == "known_dilation3_asym" else "int8"))
     if name == "known_fc_int16":
         x = b.input([1, 2, 1, 16], scale=0.0011566292960196733, zp=0)
@@ -772,6 +786,8 @@ def corpus_net(rng, name):
         x = b.input([1, 9, 4, 8], scale=0.025, zp=0)
     elif name == "known_lrelu16_rounding":
         x = b.input([1, 2, 4, 4], scale=0.01, zp=0)
+    elif name == "known_lrelu16_negative_alpha":
+        x = b.input([1, 8, 2, 8], scale=0.01, zp=0)
     else:
       x = b.input({"known_pad_conv_reshape": [1, 4, 9, 4], "known_lut_reshape": [1, 3, 9, 8],
                  "known_cascade_stale_row": [1, 10, 8, 8], "known_slice_strided_conv": [1, 6, 6, 4],
@@ -868,6 +884,12 @@ def corpus_net(rng, name):
         # above the alpha branch (Props/C01Rewrites.lrelu_mulmax_id_witness)
         z = b.fm([1, 2, 4, 4], "int16", scale=0.02, zp=0)
         b.net.ops.append(netgen.Op("LEAKY_RELU", [x], [z], ("LeakyReluOptions", dict(Alpha=0.998))))
+    elif name == "known_lrelu16_negative_alpha":
+        # int16 LEAKY_RELU with a negative alpha (C06 thorough, network lut 0/186): convert_lrelu_to_mul_max gave the alpha constant
+        # the scale -2.0, the MUL got a negative OFM multiplier that the emitter masked into the unsigned OFM_SCALE register.
+        # Repaired by constraint_alpha_valid (the operator stays on the CPU); on the repaired tree this is a regression test.
+        z = b.fm([1, 8, 2, 8], "int16", scale=0.02, zp=0)
+        b.net.ops.append(netgen.Op("LEAKY_RELU", [x], [z], ("LeakyReluOptions", dict(Alpha=-2.0))))
     else:  # known_quantize_relu
         y = b.quantize(x)
         b.t(y).scales, b.t(y).zps = [0.03], [20]
@@ -934,8 +956,11 @@ def _worker(job):
                                int((o.opts[1] if o.opts else {}).get("Padding", -1)),
                                max(int((o.opts[1] if o.opts else {}).get("StrideW", 1)), int((o.opts[1] if o.opts else {}).get("StrideH", 1))))
                               for o in net.ops])
-        with c01_lib.WeightCapture() as capture:
+        import c01_packing
+
+        with c01_lib.WeightCapture() as capture, c01_packing.Capture() as pcap:
             res = pipeline.compile_net(data, opts, name=f"n{idx}")
+        out["packing"] = pcap.cases
         out.update(status=res.status, exc=(type(res.exc).__name__ + ": " + str(res.exc))[:300] if res.exc is not None else "",
                    exc_site=pipe_common.exc_site(res.tb, res.exc))
         if res.status == "ok" and res.out_model is not None:
@@ -1063,6 +1088,21 @@ def transpose_then_activation(o):
                for kind, ins, outs, faf, pad, stride in g)
 
 
+def tanh_sigmoid_next_to_relu(o):
+    """int16 TANH / LOGISTIC (not lowered to a table) whose input comes from, or whose output goes to, a RELU-type operator"""
+    if o.get("dtype") != "int16":
+        return False
+    g = o.get("src_graph") or []
+    relu = ("RELU", "RELU6", "RELU_N1_TO_1")
+    prod = {outs[0]: kind for kind, ins, outs, faf, pad, stride in g if outs}
+    for kind, ins, outs, faf, pad, stride in g:
+        if kind in ("TANH", "LOGISTIC") and ins and prod.get(ins[0]) in relu:
+            return True
+        if kind in relu and ins and prod.get(ins[0]) in ("TANH", "LOGISTIC"):
+            return True
+    return False
+
+
 ELEMENTWISE_KINDS = ("ADD", "SUB", "MUL", "MINIMUM", "MAXIMUM", "ABS", "LEAKY_RELU", "PRELU", "HARD_SWISH", "TANH", "LOGISTIC", "EXP",
                      "SQUARED_DIFFERENCE")
 
@@ -1102,50 +1142,58 @@ def tconv_stride1_outputs(o):
     return res
 
 
-def classify_failure(o, ans):
-    """stable key of an open known finding (see known_findings.txt), or None. Only the structure of the source network
-    is consulted; the verdict itself is Lean's."""
+def _classify_candidate(o, ans, skip):
+    """first key, not in `skip`, whose structural condition the source network meets (see classify_failure)"""
     g = o.get("src_graph") or []
     if ans.endswith("verdict=fail") or ans.startswith("err:out:"):
         # rank sweep (harness/gen_ranksweep.py): three lowerings that mishandle a legal attribute value (repairs pending)
         ti, sopts = o.get("src_tinfo") or [], o.get("src_opts") or []
         for n_op, (kind, ins, outs, faf, pad, stride) in enumerate(g):
             if kind == "UNPACK" and n_op < len(sopts) and int(sopts[n_op].get("Axis", 0)) < 0:
-                return "unpack-negative-axis-converted-with-the-rule-of-pack"
+                if "unpack-negative-axis-converted-with-the-rule-of-pack" not in skip:
+                    return "unpack-negative-axis-converted-with-the-rule-of-pack"
             if kind == "SLICE" and len(ins) > 2 and ins[2] < len(ti) and ti[ins[2]][4] is not None and -1 in ti[ins[2]][4]:
-                return "slice-size-minus-one-not-resolved"
+                if "slice-size-minus-one-not-resolved" not in skip:
+                    return "slice-size-minus-one-not-resolved"
             if kind == "SQUARED_DIFFERENCE" and ins[0] < len(ti) and outs[0] < len(ti) and list(ti[ins[0]][0]) != list(ti[outs[0]][0]):
-                return "squared-difference-first-operand-broadcast"
+                if "squared-difference-first-operand-broadcast" not in skip:
+                    return "squared-difference-first-operand-broadcast"
             if kind == "FULLY_CONNECTED" and n_op < len(sopts) and sopts[n_op].get("KeepNumDims") and outs[0] < len(ti) and \
                     len(ti[outs[0]][0]) == 4 and ti[outs[0]][0][0] > 1:
-                return "fc-keep-num-dims-rank4-result-rows-not-written"
+                if "fc-keep-num-dims-rank4-result-rows-not-written" not in skip:
+                    return "fc-keep-num-dims-rank4-result-rows-not-written"
             if kind == "TRANSPOSE" and len(ins) > 1 and ins[0] < len(ti) and len(ti[ins[0]][0]) == 2 and ins[1] < len(ti) and ti[ins[1]][4] == [0, 1]:
-                return "transpose-rank2-identity-executed-as-transposition"
+                if "transpose-rank2-identity-executed-as-transposition" not in skip:
+                    return "transpose-rank2-identity-executed-as-transposition"
     if ans.endswith("verdict=fail") or ans.startswith("err:out:"):
         # STRIDED_SLICE begin below -dim / end above dim: the reference clamps, constraint_slice_ranges does not (patch C01-45)
         import gen_ssmask
 
         if gen_ssmask.out_of_range((o.get("desc") or {}).get("desc")):
-            return "strided-slice-out-of-range-begin-end-not-clamped"
+            if "strided-slice-out-of-range-begin-end-not-clamped" not in skip:
+                return "strided-slice-out-of-range-begin-end-not-clamped"
     if ans.endswith("verdict=fail"):
         # TRANSPOSE_CONV with stride 1x1: every output that differs is the output of such an operator
         t1 = tconv_stride1_outputs(o)
         failing = {int(t) for t, nbad in re.findall(r"\| t(\d+) cls=\d maxdiff=\d+ bad=(\d+)", ans) if int(nbad) > 0}
         if t1 and failing and failing <= t1:
-            return "transpose-conv-stride-1-padded-like-a-convolution"
+            if "transpose-conv-stride-1-padded-like-a-convolution" not in skip:
+                return "transpose-conv-stride-1-padded-like-a-convolution"
     if "weights_do_not_fit_the_IFM_depth" in ans:
         # PAD -> VALID CONV_2D with a stride width above 3: the PAD is replaced by hardware padding after the width was folded
         strides = o.get("src_strides") or []
         prod = {outs[0]: kind for kind, ins, outs, faf, pad, stride in g}
         for n_op, (kind, ins, outs, faf, pad, stride) in enumerate(g):
             if kind == "CONV_2D" and pad == 1 and n_op < len(strides) and strides[n_op][1] >= 4 and prod.get(ins[0]) == "PAD":
-                return "pad-before-folded-strided-conv-replaced-by-hardware-padding"
+                if "pad-before-folded-strided-conv-replaced-by-hardware-padding" not in skip:
+                    return "pad-before-folded-strided-conv-replaced-by-hardware-padding"
     if "weights_do_not_fit_the_IFM_depth" in ans:
         # AVERAGE_POOL_2D with a width stride >= 4 lowered to a convolution with one input channel
         shapes, strides = o.get("src_shapes") or [], o.get("src_strides") or []
         for n_op, (kind, ins, outs, faf, pad, stride) in enumerate(g):
             if kind == "AVERAGE_POOL_2D" and n_op < len(strides) and strides[n_op][1] >= 4 and ins[0] < len(shapes) and shapes[ins[0]][-1] > 1:
-                return "avgpool-wide-stride-as-conv:weights-have-one-input-channel"
+                if "avgpool-wide-stride-as-conv:weights-have-one-input-channel" not in skip:
+                    return "avgpool-wide-stride-as-conv:weights-have-one-input-channel"
     if ans.endswith("verdict=fail"):
         # Maximum(x, Mul(x, c)) with a constant scalar c taken for LeakyRelu / Relu / Abs on its quantised value
         quant, scalars = o.get("src_quant") or [], o.get("src_scalars") or {}
@@ -1161,17 +1209,21 @@ def classify_failure(o, ans):
                         q, zpc, sc = scalars[c[0]], quant[c[0]][1][0], float(np.float32(quant[c[0]][0][0]))
                         real = (q - zpc) * sc
                         if q == 0 and zpc != 0:
-                            return "mul-max-to-relu:quantised-zero-with-nonzero-zero-point"
+                            if "mul-max-to-relu:quantised-zero-with-nonzero-zero-point" not in skip:
+                                return "mul-max-to-relu:quantised-zero-with-nonzero-zero-point"
                         if q == -1 and real != -1:
-                            return "mul-max-to-abs:quantised-minus-one-not-real-minus-one"
+                            if "mul-max-to-abs:quantised-minus-one-not-real-minus-one" not in skip:
+                                return "mul-max-to-abs:quantised-minus-one-not-real-minus-one"
                         if q >= 0 and real > 1:
-                            return "mul-max-to-lrelu:real-constant-above-one"
+                            if "mul-max-to-lrelu:real-constant-above-one" not in skip:
+                                return "mul-max-to-lrelu:real-constant-above-one"
         # dilation above 2 (sparse kernel built in software) with asymmetric (uint8) weights
         dils = o.get("src_dilations") or []
         for n_op, (kind, ins, outs, faf, pad, stride) in enumerate(g):
             if kind in ("CONV_2D", "DEPTHWISE_CONV_2D") and n_op < len(dils) and dils[n_op] > 2 and len(ins) > 1 and ins[1] < len(quant) \
                     and any(z != 0 for z in quant[ins[1]][1]):
-                return "software-dilation:inserted-taps-zero-instead-of-weight-zero-point"
+                if "software-dilation:inserted-taps-zero-instead-of-weight-zero-point" not in skip:
+                    return "software-dilation:inserted-taps-zero-instead-of-weight-zero-point"
         # SAME-padded CONV_2D whose width gets folded into the channels (first operator with a width stride > 1, or any with a width
         # stride > 3): explicit padding from the unfolded width when the OFM height/width is 1, misaligned filter zero columns otherwise
         shapes, strides = o.get("src_shapes") or [], o.get("src_strides") or []
@@ -1179,52 +1231,94 @@ def classify_failure(o, ans):
             if kind == "CONV_2D" and pad == 0 and n_op < len(strides) and strides[n_op][1] > 1 and (n_op == 0 or strides[n_op][1] > 3):
                 osh = shapes[outs[0]] if outs[0] < len(shapes) else []
                 if len(osh) == 4 and (osh[1] == 1 or osh[2] == 1):
-                    return "strided-conv-fold:unit-output-padding-from-unfolded-width"
-                return "strided-conv-fold:filter-zero-padding-misaligned"
+                    if "strided-conv-fold:unit-output-padding-from-unfolded-width" not in skip:
+                        return "strided-conv-fold:unit-output-padding-from-unfolded-width"
+                if "strided-conv-fold:filter-zero-padding-misaligned" not in skip:
+                    return "strided-conv-fold:filter-zero-padding-misaligned"
         # PAD with channel (or batch) padding and spatial padding at once: convert_pad_to_concat keeps only the channel part
         pads = o.get("src_pads") or {}
         for kind, ins, outs, faf, pad, stride in g:
             if kind == "PAD" and len(ins) > 1 and ins[1] in pads:
                 pv = pads[ins[1]]
                 if (sum(pv[-1]) != 0 or (len(pv) == 4 and sum(pv[0]) != 0)) and sum(pv[-3]) + sum(pv[-2]) != 0:
-                    return "pad-spatial-and-channel-padding:spatial-part-dropped"
+                    if "pad-spatial-and-channel-padding:spatial-part-dropped" not in skip:
+                        return "pad-spatial-and-channel-padding:spatial-part-dropped"
         # int16 LEAKY_RELU with differing scales lowered to Maximum(Mul, Mul): each branch rounds twice
         if o.get("dtype") == "int16" and re.search(r"maxdiff=1 ", ans) and not re.search(r"maxdiff=([2-9]|1\d)", ans):
             for kind, ins, outs, faf, pad, stride in g:
                 if kind == "LEAKY_RELU" and quant and quant[ins[0]][0] != quant[outs[0]][0]:
-                    return "int16-lrelu-mul-max-rounds-each-branch"
+                    if "int16-lrelu-mul-max-rounds-each-branch" not in skip:
+                        return "int16-lrelu-mul-max-rounds-each-branch"
     # (keys of the second C01 worker; the wide-stride average pool and the dilation-above-two zero fill are the same defects as
     # the two keys above, reached when the more specific conditions above do not hold)
+    if (ans.endswith("verdict=fail") or ans.startswith("err:out:")) and wide_stride_avgpool(o):
+        if "wide-stride-avgpool-converted-with-one-input-channel-kernel" not in skip:
+            return "wide-stride-avgpool-converted-with-one-input-channel-kernel"
     if ans.endswith("verdict=fail") and mean_over_unit_axes(o):
-        return "mean-over-unit-axes-drops-requantisation"
+        if "mean-over-unit-axes-drops-requantisation" not in skip:
+            return "mean-over-unit-axes-drops-requantisation"
     if ans.endswith("verdict=fail") and protected_tensor_reshaped_into_elementwise(o):
-        return "write-protected-tensor-shares-memory-with-reshape-copy"
+        if "write-protected-tensor-shares-memory-with-reshape-copy" not in skip:
+            return "write-protected-tensor-shares-memory-with-reshape-copy"
+    if ans.endswith("verdict=fail") and tanh_sigmoid_next_to_relu(o):
+        import c01_packing
+
+        if c01_packing.KEY_TWO_ACTIVATIONS not in skip:
+            return c01_packing.KEY_TWO_ACTIVATIONS
     if ans.endswith("verdict=fail") and transpose_then_activation(o):
-        return "transpose-then-packed-activation-loses-transposition"
+        if "transpose-then-packed-activation-loses-transposition" not in skip:
+            return "transpose-then-packed-activation-loses-transposition"
     if ans.endswith("verdict=fail") or ans.startswith("err:out:"):
         k = weights_findings(o)
-        if k is not None:
+        if k is not None and k not in skip:
             return k
     if ans.endswith("verdict=fail") or ans.startswith("err:out:"):
         k = lowered_then_reshaped(o)
-        if k is not None:
+        if k is not None and k + "-then-reshape-lowered-with-reshaped-ofm-shape" not in skip:
             return k + "-then-reshape-lowered-with-reshaped-ofm-shape"
     if ans.endswith("verdict=fail") and ofm_batch_above_one(o):
-        return "ofm-batch-above-one-accepted-on-npu"
-    # (repaired: 50ebf72; asked last so that it does not shadow a finding that is still open in the same network, e.g. network 1946
-    # of seed 2: PRELU -> RESHAPE ... -> AVERAGE_POOL_2D stride (1, 5))
-    if (ans.endswith("verdict=fail") or ans.startswith("err:out:")) and wide_stride_avgpool(o):
-        return "wide-stride-avgpool-converted-with-one-input-channel-kernel"
+        if "ofm-batch-above-one-accepted-on-npu" not in skip:
+            return "ofm-batch-above-one-accepted-on-npu"
     if not (ans.endswith("verdict=fail") or "read_outside_region" in ans) or o.get("dtype") != "int16":
-        return None
+        return
     consumers = {}
     for kind, ins, outs, faf, pad, stride in g:
         for t in ins:
             consumers.setdefault(t, []).append(kind)
     for kind, ins, outs, faf, pad, stride in g:
         if kind == "LEAKY_RELU" and any(c in MEMORY_ONLY for c in consumers.get(outs[0], [])):
-            return "int16-lrelu-mul-max-then-reshape-recomputes-shapes"
+            if "int16-lrelu-mul-max-then-reshape-recomputes-shapes" not in skip:
+                return "int16-lrelu-mul-max-then-reshape-recomputes-shapes"
     return None
+
+
+
+_OPEN_KEYS = None
+
+
+def classify_failure(o, ans):
+    """stable key of an open known finding (see known_findings.txt), or None. Only the structure of the source network
+    is consulted; the verdict itself is Lean's. The structural conditions are tried in a fixed order; a key whose finding has
+    been repaired meanwhile (no `finding:` line any more) must not shadow an open finding that the network also matches (a
+    network with a repaired wide-stride AVERAGE_POOL_2D and an open PRELU -> RESHAPE): such keys are skipped. When no open
+    key matches, the first matching key is returned (the violation is then reported under it)."""
+    global _OPEN_KEYS
+    if _OPEN_KEYS is None:
+        _OPEN_KEYS = {k["key"] for k in common.load_known_findings() if k["property"] == "C01"}
+        import pending
+
+        _OPEN_KEYS |= set(pending.pending_keys("C01"))      # repairs written but not yet in the tree under test
+    skip, first = set(), None
+    for _ in range(64):         # every round adds a new key to `skip`; there are fewer than 64 keys
+        k = _classify_candidate(o, ans, skip)
+        if k is None or k in skip:
+            return first
+        if first is None:
+            first = k
+        if k in _OPEN_KEYS:
+            return k
+        skip.add(k)
+    return first
 
 
 def replay(ck, path):
@@ -1247,7 +1341,8 @@ def replay(ck, path):
 
 def main():
     ck = Check("C01", "translation_validation")
-    ck.lean_stage(["VelaVerif.Props.C01", "VelaVerif.Props.C01Rewrites", "VelaVerif.Props.C01Wide", "VelaVerif.Props.C01StridedSlice"])
+    ck.lean_stage(["VelaVerif.Props.C01", "VelaVerif.Props.C01Rewrites", "VelaVerif.Props.C01Wide", "VelaVerif.Props.C01Packing",
+                   "VelaVerif.Props.C01Slice", "VelaVerif.Props.C01StridedSlice"])
     if ck.replay_arg:
         replay(ck, ck.replay_arg)
     import pipeline
@@ -1266,6 +1361,13 @@ def main():
 
     pending.register(ck)          # repairs written but not yet in the tree under test (harness/pending.py)
     ss_stats = c01_ssmask.run(ck, 12000 if ck.thorough else 2000, 12000 if ck.thorough else 2000)
+    # pass packing: the model of pack_into_passes (Model/PassPacking.lean) against the real function on generated graphs; the
+    # subgraphs of the networks compiled below are judged after the compile stage
+    import c01_packing
+
+    t0 = time.time()
+    pk = c01_packing.run(ck)
+    ck.count("seconds_packing_generated_stream", round(time.time() - t0))
     n = 40000 if ck.thorough else 6000
     k_inputs = 5 if ck.thorough else 4
     jobs = [(0, 0, "known_" + nm, k_inputs) for nm in ("slice_relu", "fused_act_relu", "pad_conv_reshape", "quantize_relu", "reshape_relu",
@@ -1278,6 +1380,7 @@ def main():
                                                               "resize_reshape", "mean_reshape", "widepool_reshape",
                                                               "transpose_relu", "sqdiff_reshape", "dilation3_uint8", "shared_dilation3", "shared_tconv",
                                                               "prelu_reshape", "transpose_lut_mul", "protected_reshape_inplace",
+                                                              "sigmoid_relu6",
                                                               "tconv_stride1_same_even", "tconv_stride1_valid", "pad_folded_conv", "shared_fold_same_valid",
                                                               "unpack_negative_axis", "slice_size_minus1", "transpose_rank2_identity", "slice_end_clamped", "fc_keep_dims_batch", "sqdiff_broadcast_first")]
     # round-5 families first (so that the wall-clock budget of the quick tier never cuts them)
@@ -1299,6 +1402,14 @@ def main():
             outs += list(ex.map(_worker, jobs[k:k + 500], chunksize=1))
     ck.count("seconds_compile_and_build_requests", round(time.time() - t0))
     lines, owners = [], []
+    t0p = time.time()
+    pcases = []
+    for o in outs:
+        for c in o.get("packing") or []:
+            c["origin"] = f"network {o['idx']} {o['profile']} seed {o['seed']} {o.get('src_ops')} {o.get('opts')}"
+            pcases.append(c)
+    c01_packing.judge(ck, pcases, "compiled", pk)
+    ck.count("seconds_packing_compiled_corpus", round(time.time() - t0p))
     for o in outs:
         if "harness_exception" in o:
             raise common.InfraError("pipeline worker failed:\n" + o["harness_exception"])
@@ -1343,6 +1454,9 @@ def main():
         for kd in o.get("out_kinds", []):
             if kd != "NPU":
                 ck.count("cpu_op_" + kd)
+        if any(str(x).startswith("alpha=-") for x in (o["desc"].get("desc") or [])) or o["profile"] == "known_lrelu16_negative_alpha":
+            # LEAKY_RELU with a negative alpha: table lookup (8 bit), MIN / int32 MUL / RELU / ADD or - with repair C16-20 - the CPU (16 bit)
+            ck.count("lrelu_negative_alpha_%s_%s" % (o["dtype"], "cpu" if "LEAKY_RELU" in (o.get("out_kinds") or []) else "npu"))
         classes = re.findall(r"cls=(\d)", ans)
         for c in classes:
             ck.count("output_class_" + {"0": "exact", "1": "within_one", "2": "not_judged"}[c])
@@ -1373,8 +1487,10 @@ def main():
         ck.sample({"network": o["desc"], "opts": o["opts"], "features": o.get("features"), "verdict": ans[:300]})
     ck.finish({
         "programs": judged,
-        "evaluations": len(outs) + rw.evaluations,
-        "distinct_nontrivial": len(nontrivial) + len(rw.nontrivial),
+        "evaluations": len(outs) + rw.evaluations + pk.evaluations,
+        "distinct_nontrivial": len(nontrivial) + len(rw.nontrivial) + len(pk.nontrivial),
+        "packing_evaluations": pk.evaluations,
+        "packing_distinct": len(pk.nontrivial),
         "rewrite_stream_evaluations": rw.evaluations,
         "rewrite_stream_distinct": len(rw.nontrivial),
         **ss_stats,
@@ -1383,7 +1499,10 @@ def main():
                 "models executed by Lean on every input set; non-trivial = at least one NPU operation was executed by the "
                 "stream executor and at least one output has a judged tolerance class; distinct by (profile, index, options). Rewrite "
                 "streams: evaluation = one operator (group) built from the repo's classes and rewritten by the real function, compared with "
-                "the Lean model and judged by the Lean per-element semantics; distinct by the operator's parameters",
+                "the Lean model and judged by the Lean per-element semantics; distinct by the operator's parameters. Pass packing: evaluation = "
+                "one subgraph (generated with the repo's classes, or of a compiled network) packed by the real pack_into_passes, compared "
+                "with the Lean model and judged by the Lean Spec clauses (partition, order, pass shape) on the real pass list; distinct by "
+                "the graph description",
         "exhaustive": False,
         "trusted_base_extra": [
             "Spec/NpuSem.lean: hardware arithmetic transcribed from Vela's own register usage and the public register "
